@@ -864,7 +864,9 @@ func (t *FnTrans) contractCall(x *ssa.Call, callee *ssa.Function, con *Contract,
 	}
 	// frame
 	if !con.Pure {
-		t.frameCheck("call:"+name, x.Pos(), reach)
+		if !t.writesOnlyLocalArgs(x, callee, con) {
+			t.frameCheck("call:"+name, x.Pos(), reach)
+		}
 		if t.allowedMods != nil {
 			if comps, ok := t.modifiesComps(callee, con); ok && len(con.Modifies) > 0 {
 				for _, c := range comps {
@@ -1345,6 +1347,42 @@ func (t *FnTrans) havocModifies(item string, pre *Env, st *HeapState, reach stri
 		return
 	}
 	panic(&exprError{"unsupported modifies item"})
+}
+
+// writesOnlyLocalArgs: the callee's declared frame consists only of
+// contents(p) items over its own slice parameters, and at this call every such
+// parameter is passed a slice this function allocated itself (make / local
+// array): the call writes nothing that existed when this function was entered,
+// so it does not break the caller's own `pure`.
+func (t *FnTrans) writesOnlyLocalArgs(x *ssa.Call, callee *ssa.Function, con *Contract) bool {
+	if len(con.Modifies) == 0 || len(con.Preserves) > 0 || callee == nil {
+		return false
+	}
+	args := x.Common().Args
+	for _, item := range con.Modifies {
+		if !strings.HasPrefix(item, "contents(") || !strings.HasSuffix(item, ")") {
+			return false
+		}
+		pn := strings.TrimSpace(item[len("contents(") : len(item)-1])
+		found := false
+		sig := callee.Signature
+		off := 0
+		if sig.Recv() != nil {
+			off = 1
+		}
+		for i := 0; i < sig.Params().Len(); i++ {
+			if sig.Params().At(i).Name() == pn && i+off < len(args) {
+				if !rootIsLocal(args[i+off]) {
+					return false
+				}
+				found = true
+			}
+		}
+		if !found {
+			return false
+		}
+	}
+	return true
 }
 
 // ----------------------------------------------------------- site hooks ---
